@@ -4,6 +4,11 @@ import PyElf.Spec.LineProgramExt
 import PyElf.Model.LineProgram
 import PyElf.Model.Env
 import PyElf.Gen.Extra_C05
+import PyElf.Spec.LineSection
+import PyElf.Model.LineInfo
+import PyElf.Driver.C04
+import PyElf.Driver.C11
+import PyElf.Model.LineFile
 open Lean
 namespace PyElf.Driver.C05
 open PyElf PyElf.Spec PyElf.Spec.Line PyElf.Model.Line
@@ -153,8 +158,167 @@ def runQueries (env : Env) (S : DwarfStructs) (K : LnConsts) (fmt : Nat) (secs :
     let (j, cache') := runQuery env S K fmt secs data cache q
     runQueries env S K fmt secs data qs cache' (j :: acc)
 
+/-! ### kind `info`: line programs from the section bytes of a whole `.debug_info` (Model/LineInfo) -/
+
+open PyElf.Spec.LineSec PyElf.Model.LineInfo in
+/-- the key under which the unit's program lies in `_linetable_cache`: the DW_AT_stmt_list value -/
+def stmtOffset (U : Model.C04.UnitCtx) : Option Nat :=
+  match Model.C04.getTopDIE U with
+  | .ok top =>
+    match lastNamed (.str "DW_AT_stmt_list") top.attrs none with
+    | some a => a.value.asNat.toOption
+    | none => none
+  | .error _ => none
+
+open PyElf.Spec.LineSec PyElf.Model.LineInfo in
+/-- one unit, as the harness does: `line_program_for_CU(cu)`, then `get_entries()` on the object -/
+def runInfoUnit (ed : String → Int → Option String) (K : LnConsts) (W : LineWorld) (rU : R Model.C04.UnitCtx)
+    (cache : LCache) : Json × LCache :=
+  match rU with
+  | .error e => (Json.mkObj [("parse", Json.mkObj [("err", Json.str e.name)])], cache)
+  | .ok U =>
+    match lineProgramForUnit W U cache with
+    | .error e => (Json.mkObj [("parse", Json.mkObj [("err", Json.str e.name)])], cache)
+    | .ok (none, cache') => (Json.mkObj [("parse", Json.mkObj [("ok", Json.null)])], cache')
+    | .ok (some x, cache') =>
+      match W.line with
+      -- an object exists only if a `.debug_line` does
+      | none => (Json.mkObj [("parse", Json.mkObj [("ok", lpJson x.lp)]),
+                             ("decode", Json.mkObj [("err", Json.str "attributeError")])], cache')
+      | some data =>
+        match getEntriesLP ed K data x with
+        | .error e => (Json.mkObj [("parse", Json.mkObj [("ok", lpJson x.lp)]),
+                                   ("decode", Json.mkObj [("err", Json.str e.name)])], cache')
+        | .ok (es, x', tell) =>
+          (Json.mkObj [("parse", Json.mkObj [("ok", lpJson x.lp)]),
+                       ("decode", Json.mkObj [("ok", Json.mkObj [
+                          ("entries", Json.arr (es.map entryJson).toArray),
+                          ("file_entry_after", fileEntryOf x'.lp),
+                          -- `stream.tell()` is compared only when the loop body ran at least once
+                          ("tell", match tell with
+                                   | some t => if x.lp.program_start_offset < x.lp.program_end_offset then jN t else Json.null
+                                   | none => Json.null)])])],
+           -- the object is shared with `_linetable_cache`: its memo and its appended-to file table are seen by later units
+           match stmtOffset U with
+           | some off => LCache.update cache' off x'
+           | none => cache')
+
+open PyElf.Spec.LineSec PyElf.Model.LineInfo in
+/-- `for cu in [list(di.iter_CUs())[i] for i in order]: di.line_program_for_CU(cu).get_entries()` on the `DWARFInfo`
+    `(w, W)`: the observations, the number of units, the exception that ended `iter_CUs()` -/
+def runInfoLoop (w : Model.C04.DInfo) (W : LineWorld) (K : LnConsts) (req : Json) :
+    Except String (List Json × Nat × Option Err) := do
+  let some S0 := Model.dwarfStructsFor ⟨w.le, 32, w.dasz, 2⟩ | throw "no default bundle"
+  let (us, e) := Model.C04.sectionUnits w S0 w.info false
+  let order ← match req.getObjVal? "order" with
+    | .ok j => (← aArr j).mapM aNat
+    | .error _ => pure (List.range us.length)
+  let mut cache : LCache := []
+  let mut models : List Json := []
+  for idx in order do
+    match us[idx]? with
+    | none => throw "order: no such unit"
+    | some (_, rU) =>
+      let (j, cache') := runInfoUnit w.enumDecode K W rU cache
+      models := models ++ [j]
+      cache := cache'
+  return (models, us.length, e)
+
+/-- kind `file`: the same on `ELFFile(BytesIO(elf)).get_dwarf_info()` — C11's model of the container (zlib answers
+    recorded from the real module, sent as a table), then `Model.LineInfo.dinfoOfView` (Props/C05 `line_programs_of_file`) -/
+def handleFile (req : Json) : Except String Json := do
+  let data ← jHex req "elf"
+  let zl ← (← jArr req "zlib").mapM fun e => do
+    match ← aArr e with
+    | [dj, kk, oj] =>
+      let o ← match oj with
+        | .null => pure none
+        | j => do pure (some (← aHex j))
+      return (← aHex dj, ← aNat kk, o)
+    | _ => throw "bad zlib entry"
+  let P := C11.genParams (C11.extOf zl)
+  let some K := LnConsts.ofTable Gen.lnConstTable | throw "DW_LNS/DW_LNE constants missing from the library"
+  match Model.C11.dwarfView P 8 none data true true with
+  | .error e => return Json.mkObj [("view_err", Json.str e.name)]
+  | .ok v =>
+    let (w, W) := Model.LineInfo.dinfoOfView v
+    let (models, nUnits, e) ← runInfoLoop w W K req
+    return Json.mkObj [("n_units", jN nUnits), ("end", match e with | some x => Json.str x.name | none => Json.null),
+                       ("model", Json.arr models.toArray)]
+
+open PyElf.Spec.LineSec PyElf.Model.LineInfo in
+def handleInfo (req : Json) : Except String Json := do
+  let le ← jBool req "le"
+  let dasz := C04.jNatD req "dasz" 4
+  let tables ← (← jArr req "abbrevs").mapM fun t => do
+    let ds ← (← jArr t "decls").mapM C04.parseDecl
+    return ({ gap := (C04.jHexOpt t "gap").getD [], decls := ds, endLen := C04.jNatD t "end_len" 1 } : Spec.C04.TableDesc)
+  let fsecs := C04.parseSecs ((req.getObjVal? "secs").toOption.getD (Json.mkObj []))
+  let units ← (← jArr req "units").mapM (C04.parseUnitReq (tables.map fun t => (t.decls, t.endLen)))
+  let F := C04.forestOf le tables units [] fsecs
+  let info := Spec.C04.infoSec F
+  let abbr := Spec.C04.encTables F.tables
+  let lines ← (← jArr req "lines").mapM fun u => do
+    let h ← headerOf (← u.getObjVal? "header")
+    let is ← (← jArr u "instrs").mapM instrOf
+    let gap ← jHex u "gap"
+    let ext ← match u.getObjVal? "ext" with
+      | .ok j => aHex j
+      | .error _ => pure []
+    return ({ gap := gap, h := h, ext := ext, is := is } : LineUnitDesc)
+  let tail ← jHex req "tail"
+  let supPresent := (jBool req "sup_present").toOption.getD false
+  let supStr ← optHex req "sup_str"
+  let sup : Option Bytes := if supPresent then supStr else none
+  let lineData := encLineSec lines tail
+  let linePresent := (jBool req "line_present").toOption.getD true
+  let W : LineWorld := { line := if linePresent then some lineData else none,
+                         sup := if supPresent then some supStr else none }
+  let some K := LnConsts.ofTable Gen.lnConstTable | throw "DW_LNS/DW_LNE constants missing from the library"
+  -- the `DWARFInfo` of Props/C05 `line_programs_from_sections`: C04's, with everything regenerated
+  let w := Model.C04.genDInfo le dasz (some info) (some abbr) none fsecs
+  let (models, nUnits, e) ← runInfoLoop w W K req
+  -- the Spec side
+  let offs := (List.range lines.length).map (lineOff lines)
+  let wfForest := Spec.C04.wfForestB C04.names F
+  let linesOk := linesOKB F lines tail sup && linePresent && !(supPresent && supStr.isNone)
+  -- the property's domain: moreover the two divisors are not zero (`Params.WF`)
+  let domain := lines.all fun d => decide (1 ≤ d.h.p.maxOps) && decide (1 ≤ d.h.p.lineRange)
+  let ssecs := strSecsOf F sup
+  let stmts := F.units.map fun u => stmtRef u.tree.root
+  let expects := stmts.map fun st =>
+    match st with
+    | .absent => Json.mkObj [("kind", Json.str "absent")]
+    | .other => Json.mkObj [("kind", Json.str "other")]
+    | .at v =>
+      match (List.range lines.length).find? (fun i => lineOff lines i == v) with
+      | none =>
+        if !linePresent then Json.mkObj [("kind", Json.str "noline"), ("v", jN v)]
+        else if lineData.length < v + 4 then Json.mkObj [("kind", Json.str "beyond"), ("v", jN v)]
+        else Json.mkObj [("kind", Json.str "dangling"), ("v", jN v)]
+      | some i =>
+        match lines[i]? with
+        | none => Json.null
+        | some d =>
+          let fe := if d.h.version ≥ 5 then Json.null
+                    else Json.arr ((d.h.files ++ definedFiles d.is).map fun e => e.obs.toJson).toArray
+          Json.mkObj [("kind", Json.str (if linePresent then "prog" else "noline")), ("v", jN v), ("index", jN i),
+                      ("header", (d.h.observeX ssecs d.ext d.body).toJson),
+                      ("start", jN (v + headerSizeX d.h d.ext)),
+                      ("end", jN (v + d.enc.length)),
+                      ("rows", Json.arr ((stdRun d.h.p d.is).map rowJson).toArray),
+                      ("file_entry_after", fe),
+                      ("tell", if d.body.isEmpty then Json.null else jN (v + d.enc.length))]
+  return Json.mkObj [("info", jHexOf info), ("abbrev", jHexOf abbr), ("line", jHexOf lineData),
+                     ("line_offs", Json.arr (offs.map jN).toArray),
+                     ("n_units", jN nUnits), ("end", match e with | some x => Json.str x.name | none => Json.null),
+                     ("wf_forest", Json.bool wfForest), ("lines_ok", Json.bool linesOk), ("domain", Json.bool domain),
+                     ("expect", Json.arr expects.toArray), ("model", Json.arr models.toArray)]
+
 def handle (req : Json) : Except String Json := do
   let k ← jStr req "k"
+  if k == "info" then return ← handleInfo req
+  if k == "file" then return ← handleFile req
   let cfg ← jArr req "cfg"
   let (le, fmt, asz, ver) ← match cfg with
     | [Json.bool le, fmt, asz, ver] => do pure (le, ← jNatOf fmt, ← jNatOf asz, ← jNatOf ver)
